@@ -23,7 +23,10 @@ RULE = (
     "generic motion on a mesh with >=2 boundary elements. point_location: query points built from reference coordinates "
     "of a known element (strictly inside, on an edge/face, on a vertex) through the vertex map, evaluated singly and as a "
     "batch for a random polynomial of the degree the element space contains; non-trivial = degree>=1 with >=1 query "
-    "that is not a node. projector: two meshes of the same polygon/prism. distinct = sha1 of the serialised case."
+    "that is not a node. projector: two meshes of the same polygon/prism. normals_types / location_types: finite tables "
+    "enumerated completely (every 2D/3D element type x contour order or boundary source x rotation/mirror/out-of-plane motion; "
+    "every element type x general/parallelogram geometry x motion x 12 queries of every kind), because Hypothesis does not "
+    "stratify over element types. distinct = sha1 of the serialised case."
 )
 ASSUMPTIONS = [
     "exact measure/centroid/perimeter/outward normals come from the recipe (shoelace, prism formula, vlib.c09_geom), the "
@@ -49,7 +52,7 @@ DESIGN_REF = "DESIGN.md 4/C08"
 READY = True
 
 TOL_ID = 1e-11
-EXCLUDE_DIM_CLUSTERS = True  # finding C08-d (raises): set to False once it is fixed, batches then keep every query point
+EXCLUDE_DIM_CLUSTERS = False  # finding C08-d is fixed (commit in KNOWN_FINDINGS.json): batches keep every query point
 MASS = MatrixType.mass
 
 
